@@ -97,12 +97,46 @@ class LoaderFault(object):
         self.path = None
         self.left = 0
 
+    arm_at_read = False     # arm when toasty's tile reader is entered (then stat fails too) instead of at the load itself
+
+    def on_read_image(self, path):
+        if self.arm_at_read and self.path is None:
+            self._maybe_arm(path)
+
+    def on_stat(self, path):
+        from ..kernel import current_task
+        t = current_task()
+        if self.arm_at_read and self.path is not None and path == self.path and self.left > 0 and t is not None and t.name == self.victim:
+            raise OSError(self.err, "injected %s on stat of %s" % (errno.errorcode.get(self.err, self.err), self.sim.rel(path)))
+
+    def _maybe_arm(self, path):
+        from ..kernel import current_task
+        t = current_task()
+        if t is None or not t.name.startswith("w") or not os.path.exists(path):
+            return
+        n = self.n
+        self.n += 1
+        if n != self.k:
+            return
+        sim = self.sim
+        self.path = path
+        self.victim = t.name
+        self.left = self.persist
+        sim.fault("injected_io_error")
+        sim.fault("injected_file_server_error_%s" % errno.errorcode.get(self.err, self.err))
+        sim.event("inject-read", sim.rel(path), self.err)
+        sim.injected_at = (sim.step, sim.now)
+        sim.vtime_cap = sim.now + LIVENESS_BOUND + 10.0
+        sim.stop_faults()
+
     def __call__(self, path):
         from ..kernel import current_task
         t = current_task()
         if t is None or not t.name.startswith("w"):
             return
         sim = self.sim
+        if self.path is None and self.arm_at_read:
+            return
         if self.path is None:
             if getattr(self, "need_existing", True) and not os.path.exists(path):
                 return
@@ -261,7 +295,9 @@ def run_one(ch, env):
             lerr = LOADER_ERRNOS[ch.draw(len(LOADER_ERRNOS), kind="loader_errno")]
             persist = (1, 3, 8, 1000)[ch.draw(4, kind="loader_fault_attempts")]
             sim.load_fault = LoaderFault(sim, k, lerr, persist)
-            res["config"].update(fault="tile-loader", loader_errno=errno.errorcode.get(lerr), loader_fault_attempts=persist)
+            # half of the time the hiccup starts when toasty's tile reader is entered: stat / exists of the file fail too
+            sim.load_fault.arm_at_read = ch.draw(2, kind="hiccup_from_reader_entry") == 1
+            res["config"].update(fault="tile-loader", from_reader_entry=sim.load_fault.arm_at_read, loader_errno=errno.errorcode.get(lerr), loader_fault_attempts=persist)
         else:
             sim.io_fault = IoFault(sim, k)
     else:
